@@ -43,11 +43,14 @@ RawWrite(s, ph, v) == IF ph < MemWords
                       THEN [s EXCEPT !.acc = Append(@, <<ph, 1, v>>), !.mem = (ph :> v) @@ @]
                       ELSE IF InIo(ph)
                       THEN [s EXCEPT !.acc = Append(@, <<ph, 1, v>>), !.io = ((ph - MmioBase) :> v) @@ @,
-                                     !.miu = IF IsMiuOff(ph - MmioBase) THEN MiuApply(@, ph - MmioBase, v) ELSE @]
+                                     !.miu = IF s.miu.live /\ IsMiuOff(ph - MmioBase) THEN MiuApply(@, ph - MmioBase, v) ELSE @]
                       ELSE Fail([s EXCEPT !.acc = Append(@, <<ph, 1, v>>)], "oob")
 
 \* MemoryInterfaceUnit as constructed / Reset (memory_interface.h member initialisers)
-MiuReset == [base |-> 32768, z |-> 0, pm |-> 0, xp |-> 0, yp |-> 0, xs |-> <<32, 32>>, ys |-> <<30, 30>>]
+\* live: TRUE when the MMIO window is backed by the real register file (System.tla: a full Teakra), FALSE when the
+\* MMIO cells are inert logged storage (the single-instruction rig of isa_rec: the MIU registers never change there)
+MiuReset == [base |-> 32768, z |-> 0, pm |-> 0, xp |-> 0, yp |-> 0, xs |-> <<32, 32>>, ys |-> <<30, 30>>, live |-> FALSE]
+MiuLive  == [MiuReset EXCEPT !.live = TRUE]
 InMMIO(s, a)   == a >= s.miu.base /\ a < s.miu.base + 2048          \* the sum is formed in int: no 16-bit wrap
 \* ConvertDataAddress: page mode 0 -> z page; page mode 1 -> x page up to AND INCLUDING x_size[0] * 0x400, y page above
 DataPage(s, a) == IF s.miu.pm = 0 THEN s.miu.z ELSE IF a <= s.miu.xs[1] * 1024 THEN s.miu.xp ELSE s.miu.yp
